@@ -29,7 +29,7 @@ ASSUMPTIONS = [
     'the index of the failing file-system operation',
     'fault injection wraps os.rename/os.remove/os.link/os.makedirs/shutil.copy* and open-for-writing as used by ZODB.blob '
     'and ZODB.FileStorage.FileStorage; one fault per commit',
-    'pack is always to "now"; undo is applied to the newest transaction only',
+    'pack is to "now" or to an earlier transaction boundary (pack_mid, directed harnesses); undo is applied to the newest transaction only',
 ]
 
 SCRATCH_BASE = '/dev/shm' if os.path.isdir('/dev/shm') else tempfile.gettempdir()
@@ -247,6 +247,36 @@ class BlobWorld:
         self._revert()
         return 'faulty(%d:%s)' % (inj.fired_at, inj.fired)
 
+    def conflict_commit(self, i):
+        """Another connection rewrites a blob and commits first; our commit of a change to the same blob then
+        fails with a ConflictError: nothing of our transaction remains, the other one's bytes are the state."""
+        from ZODB.POSException import ConflictError
+        name = self._pick(i)
+        if name is None or name not in self.committed or self.sps:
+            return None
+        if name not in self.touched:
+            self.rewrite(i, False)
+        tm2 = self.transaction.TransactionManager()
+        c2 = self.db.open(tm2)
+        d2 = self._data('O')
+        with c2.root()[name].open('w') as f:
+            f.write(d2)
+        tm2.commit()
+        c2.close()
+        tid2 = self.s.lastTransaction()
+        self._mark()
+        self.revs[name].append((tid2, d2, None))
+        self.history.append((tid2, {name: (self.committed[name], d2)}))
+        self.committed[name] = d2
+        try:
+            self.tm.commit()
+            fail('commit of a blob that another connection changed meanwhile succeeded')
+        except ConflictError:
+            pass
+        self.tm.abort()
+        self._revert()
+        return 'conflict:' + name
+
     def undo_last(self):
         if not self.history or self.touched or self.sps or self.kind != 'file':
             return None          # (MappingStorage has no undo)
@@ -425,7 +455,7 @@ class _Injector:
 
 
 CODES = ['new', 'rewrite0', 'append0', 'consume0', 'rewrite1', 'savepoint', 'rollback', 'commit', 'abort',
-         'fail_commit>', 'fail_vote>', 'fail_vote<', 'undo', 'pack', 'pack_mid']
+         'fail_commit>', 'fail_vote>', 'fail_vote<', 'undo', 'pack', 'pack_mid', 'conflict0']
 
 
 def _step(w, code, other):
@@ -455,6 +485,8 @@ def _step(w, code, other):
         return w.pack_mid()
     if code == 'undo2_fail':
         return w.undo2_fail()
+    if code.startswith('conflict'):
+        return w.conflict_commit(int(code[-1]))
     raise ValueError(code)
 
 
@@ -471,7 +503,7 @@ def _run(codes, kind, other, fault=None):
             trace.append(t)
             where = ' '.join(trace)
             w.check_view(where)
-            if code in ('commit', 'abort', 'undo', 'pack', 'pack_mid', 'undo2_fail') or code.startswith('fail_'):
+            if code in ('commit', 'abort', 'undo', 'pack', 'pack_mid', 'undo2_fail') or code.startswith(('fail_', 'conflict')):
                 w.check_disk(where)
                 w.check_other(where)
             elif code in ('savepoint', 'rollback'):
@@ -546,6 +578,134 @@ def h_directed_undo_pack(u1: bool, w3: bool, u2: bool, with_new: int, packsel: i
     reached()
 
 
+def h_directed_unlink_pack(w2: bool, act: int, packsel: int, kind: str) -> None:
+    """A blob is created, [rewritten,] unlinked from the root, then - in a later transaction - written again
+    (and linked again, or left unreachable), followed by an unrelated commit; pack to a solver-chosen
+    transaction boundary.  Revisions written after the pack time keep their files whatever the object's
+    reachability at the pack time; revisions superseded at the pack time, and everything of an object that is
+    garbage then and not written later, lose them."""
+    a = choose(act, 3)                # 0: nothing further, 1: rewrite + link again, 2: rewrite while unreachable
+    with untraced():
+        w = BlobWorld(kind)
+        try:
+            from ZODB.serialize import referencesf
+            rootlog = []              # (tid, blob names in the root) per commit
+
+            def commit(tag):
+                w._with_other(True)
+                w.commit()
+                rootlog.append((w.s.lastTransaction(), frozenset(w.work)))
+                trace.append(tag)
+            trace = []
+            w.new(False)
+            commit('new:b1')
+            if w2:
+                w.rewrite(0, False)
+                commit('rewrite')
+            b = w.root['b1']
+            del w.root['b1']
+            kept = w.work.pop('b1')
+            commit('unlink')
+            if a:
+                d = w._data('Z')
+                with b.open('w') as f:
+                    f.write(d)
+                if a == 1:
+                    w.root['b1'] = b
+                    w.work['b1'] = d
+                    commit('rewrite+link')
+                else:
+                    commit('rewrite-unreachable')
+                w.revs['b1'].append((w.s.lastTransaction(), d, None))
+            w.root['plain'].v += 1
+            commit('unrelated')
+            k = choose(packsel, len(w.marks))
+            stop_tid, when = w.marks[k]
+            note('pack', '%d/%d act=%d' % (k, len(w.marks), a))
+            w.s.pack(when, referencesf)
+            live = set()
+            at_stop = frozenset()
+            for tid, names in rootlog:
+                if tid <= stop_tid:
+                    at_stop = names
+                else:
+                    live |= names
+            live |= at_stop
+            rs = w.revs['b1']
+            old = [r for r in rs if r[0] <= stop_tid]
+            newer = [r for r in rs if r[0] > stop_tid]
+            # the revision current at the pack time is needed if some state from then on reaches the blob while that
+            # revision is still the current one; if the blob is garbage at the pack time but written later, whether
+            # the storage keeps that (unreachable) revision is left open here (record level: C07)
+            needed = any('b1' in names and not [r for r in newer if r[0] <= tid]
+                         for tid, names in [(stop_tid, at_stop)] + [x for x in rootlog if x[0] > stop_tid])
+            keep_old = old[-1:] if needed else []
+            if old and not needed and newer and os.path.exists(w.s.fshelper.getBlobFilename(w.oid['b1'], old[-1][0])):
+                keep_old = old[-1:]
+            w.revs['b1'] = keep_old + newer
+            where = ' '.join(trace) + ' pack@%d' % k
+            w.check_disk(where)
+            w.check_view(where)
+            w.check_other(where)
+        finally:
+            w.destroy()
+    reached()
+
+
+def h_foreign_abort(where: int, nblobs: int, kind: str) -> None:
+    """tpc_abort called with a transaction other than the one being committed, at a solver-chosen point of a
+    blob commit (after begin / after the stores / after the vote): rejected without effect - the commit in
+    progress finishes and all its blob files are in place with the bytes written."""
+    k = choose(where, 3)
+    nb = 1 + choose(nblobs, 2)
+    with untraced():
+        from ZODB.Connection import TransactionMetaData
+        from ZODB.utils import z64
+        w = BlobWorld(kind)
+        try:
+            s = w.s
+            t = TransactionMetaData(b'u', b'blob commit in progress')
+            other = TransactionMetaData(b'u', b'blob commit in progress')      # looks the same, is another transaction
+            s.tpc_begin(t)
+            if k == 0:
+                s.tpc_abort(other)
+            oids, datas = [], []
+            rec = w.s.load(w.root['plain']._p_oid)[0]      # any valid record serves as the blob object's record
+            import pickle
+            from ZODB.blob import Blob
+            import io
+            for i in range(nb):
+                o = s.new_oid()
+                fn = os.path.join(s.temporaryDirectory(), 'foreign-%d.tmp' % i)
+                d = b'blob-bytes-%d' % i
+                with open(fn, 'wb') as f:
+                    f.write(d)
+                s.storeBlob(o, z64, rec, fn, '', t)
+                oids.append(o)
+                datas.append(d)
+            if k == 1:
+                s.tpc_abort(other)
+            s.tpc_vote(t)
+            if k == 2:
+                s.tpc_abort(other)
+            check(s.tpc_transaction() is t if hasattr(s, 'tpc_transaction') else True,
+                  'abort with a foreign transaction ended the transaction in progress')
+            s.tpc_finish(t)
+            tid = s.lastTransaction()
+            for o, d in zip(oids, datas):
+                try:
+                    fn = s.loadBlob(o, tid)
+                except Exception as ex:
+                    fail('blob file of a committed transaction is missing after a foreign tpc_abort during its commit', k, type(ex).__name__)
+                with open(fn, 'rb') as f:
+                    check(f.read() == d, 'blob bytes differ after a foreign tpc_abort during the commit', k)
+            files, leftovers = w.blob_files()
+            check(not leftovers, 'temporary files left in the blob directory', leftovers)
+        finally:
+            w.destroy()
+    reached()
+
+
 _FIRST = ['new', 'rewrite0', 'append0', 'consume0', 'savepoint', 'fail_commit>', 'fail_vote>', 'undo', 'pack']
 HARNESSES = [
     Harness('program', h_program,
@@ -578,7 +738,22 @@ HARNESSES = [
             bounds='programs of 5-10 steps of this shape', oracle='blob revision model',
             code=['FileStorage.undo (blob copy)', 'fspack.copyDataRecords (blob_removed)', 'FileStorage._remove_blob_files_tagged_for_removal_during_pack',
                   'BlobStorage._packNonUndoing/_packUndoing'],
-            quick=dict(timeout=150, shards=shards(kind=['file'])), thorough=dict(timeout=300, shards=shards(kind=['file', 'mapping']))),
+            quick=dict(timeout=150, shards=shards(kind=['file', 'mapping'])), thorough=dict(timeout=300, shards=shards(kind=['file', 'mapping']))),
+    Harness('directed_unlink_pack', h_directed_unlink_pack,
+            decides='a blob unlinked from the root and written again later (linked again or not): after a pack to any transaction '
+                    'boundary the files of all revisions written after the pack time exist, those of superseded / garbage revisions are gone',
+            symbolic='optional rewrite before the unlink, action after it (none / rewrite+link / rewrite while unreachable), pack-time selector over all boundaries',
+            bounds='one blob, 4-6 transactions', oracle='blob revision model + root membership per transaction',
+            code=['fspack.copyDataRecords (blob_removed)', 'GC.findReachable*', 'FileStorage._remove_blob_files_tagged_for_removal_during_pack',
+                  'BlobStorage._packNonUndoing'],
+            quick=dict(timeout=150, shards=shards(kind=['file', 'mapping'])), thorough=dict(timeout=300, shards=shards(kind=['file', 'mapping']))),
+    Harness('foreign_abort', h_foreign_abort,
+            decides='tpc_abort with a transaction other than the one being committed, at any point of a blob commit, has no effect: '
+                    'the commit finishes with all blob files in place',
+            symbolic='point of the foreign call (after begin / after the stores / after the vote), number of blobs (1-2)',
+            bounds='storage-level two-phase commit of 1-2 new blobs', oracle='loadBlob bytes',
+            code=['BlobStorage.tpc_abort', 'BlobStorageMixin._blob_tpc_abort/storeBlob', 'BaseStorage.tpc_abort', 'FileStorage._abort'],
+            quick=dict(timeout=60, shards=shards(kind=['file', 'mapping'])), thorough=dict(timeout=120, shards=shards(kind=['file', 'mapping']))),
     Harness('fault', h_fault,
             decides='a commit during which any one file-system operation of the blob code fails either stands completely or leaves '
                     'no file of that transaction; the next transaction commits normally',
